@@ -15,7 +15,7 @@ SetOfSeq(q) == {q[i] : i \in 1 .. Len(q)}
 \* the instances a discoverer watching `watched` with own instance name `own` must report
 ExpectedInstances(anns, watched, own) ==
   {[name |-> a.inst.name, ips |-> SetOfSeq(a.inst.ips), ports |-> SetOfSeq(a.inst.ports), attrs |-> SetOfSeq(a.inst.attrs)] :
-     a \in {x \in SetOfSeq(anns) : x.kind \in {"instance", "instance+foreign"} /\ x.service = watched /\ x.inst.name # own}}
+     a \in {x \in SetOfSeq(anns) : x.kind \in {"instance", "instance+foreign", "goodbye-then-instance", "flush-then-instance"} /\ x.service = watched /\ x.inst.name # own}}
 
 ReportedSet(rep) ==
   {[name |-> rep[i].name, ips |-> SetOfSeq(rep[i].ips), ports |-> SetOfSeq(rep[i].ports), attrs |-> SetOfSeq(rep[i].attrs)] :
